@@ -10,21 +10,26 @@ NAME=$(grep -o "\-\-test [A-Za-z0-9_]*" $README | head -1 | awk '{print $2}')
 DIR=${PKG#inkayaku_}
 cd $WT || exit 2
 git checkout -q -- . ; git clean -fdq -e target
-INSTALL=$(ls $OUT/demo/install_mod_line.diff 2>/dev/null)
+INSTALL=$(ls $OUT/demo/install_mod_line.diff $OUT/demo/hook.diff 2>/dev/null | head -1)
+# special layouts: DEMO_DEST = directory the demo .rs goes to, DEMO_APPEND = "file::line" appended while the demo is installed
+DEST=${DEMO_DEST:-engine_core/src/engine}
 DEMOFILES=$(find $OUT/demo -name '*.rs')
 install_demo() {
-  if [ -n "$INSTALL" ]; then
-    git apply $INSTALL; for f in $DEMOFILES; do cp $f engine_core/src/engine/; done
+  if [ -n "$DEMO_APPEND" ]; then
+    mkdir -p $DEST; for f in $DEMOFILES; do cp $f $DEST/; done; echo "${DEMO_APPEND#*::}" >> ${DEMO_APPEND%%::*}
+  elif [ -n "$INSTALL" ]; then
+    mkdir -p $DEST; git apply $INSTALL; for f in $DEMOFILES; do cp $f $DEST/; done
   else
     mkdir -p $DIR/tests; for f in $DEMOFILES; do cp $f $DIR/tests/; done
   fi
 }
 remove_demo() {
-  if [ -n "$INSTALL" ]; then git apply -R $INSTALL; for f in $DEMOFILES; do rm -f engine_core/src/engine/$(basename $f); done
+  if [ -n "$DEMO_APPEND" ]; then sed -i '$ d' ${DEMO_APPEND%%::*}; for f in $DEMOFILES; do rm -f $DEST/$(basename $f); done
+  elif [ -n "$INSTALL" ]; then git apply -R $INSTALL; for f in $DEMOFILES; do rm -f $DEST/$(basename $f); done
   else for f in $DEMOFILES; do rm -f $DIR/tests/$(basename $f); done; fi
 }
 run_demo() {
-  if [ -n "$INSTALL" ]; then FILTER=$(basename $(echo $DEMOFILES | awk '{print $1}') .rs); cargo test -p $PKG --offline $FILTER
+  if [ -n "$INSTALL" ] || [ -n "$DEMO_APPEND" ]; then FILTER=$(basename $(echo $DEMOFILES | awk '{print $1}') .rs); cargo test -p $PKG --offline $FILTER
   else cargo test -p $PKG --offline --test $NAME; fi
 }
 install_demo
